@@ -292,8 +292,10 @@ def replay(cfg, inputs, check, info, tag):
 class _RealDT(_dt.datetime):
     """a REAL datetime (so the real code runs on real objects) that also offers the integer views the oracles use"""
 
-    def __new__(cls, d):
-        return _dt.datetime.__new__(cls, d.year, d.month, d.day, d.hour, d.minute, d.second, d.microsecond)
+    def __new__(cls, d, *a, **k):
+        if isinstance(d, _dt.datetime) and not a and not k:
+            return _dt.datetime.__new__(cls, d.year, d.month, d.day, d.hour, d.minute, d.second, d.microsecond)
+        return _dt.datetime.__new__(cls, d, *a, **k)  # replace(), +, - re-construct through the normal signature
 
     @property
     def us(self):
@@ -639,15 +641,17 @@ def c14t(sink, cfg, mk, num):
             sink.check("new-end-points-aligned-to-%s-boundaries" % unit, And(aligned(unit, n_lo), aligned(unit, n_hi)), info=info)
         else:
             pass
-        # sub-second ticks: the new ends sit on the tick grid itself (the first tick or one step before it, the last tick or
-        # one step after it), to within a millisecond
-        sub = And(*[g < 10**6 for g in gaps])
+        # equally spaced ticks (every unit up to weeks): the new ends sit on the tick grid itself (the first tick or one step
+        # before it, the last tick or one step after it), to within a millisecond -- "aligned at least as coarsely as the ticks"
+        # whenever the ticks are equally spaced AND the unit's numbering cannot restart unevenly inside the span: sub-day steps
+        # (5/15/30 s, 5/15/30 min, 3/6/12 h divide their cycle) and whole weeks; 2-day ticks restart at month ends (d3's rule)
+        sub = And(And(*[g == gaps[0] for g in gaps]), Or(gaps[0] < DAY_US, gaps[0] == 7 * DAY_US))
         g0 = gaps[0]
         on_grid = And(
             Or(*[And(n_lo.us - (T[0].us - k * g0) <= 1000, (T[0].us - k * g0) - n_lo.us <= 1000) for k in (0, 1)]),
             Or(*[And(n_hi.us - (T[-1].us + k * g0) <= 1000, (T[-1].us + k * g0) - n_hi.us <= 1000) for k in (0, 1)]),
         )
-        sink.check("sub-second-ticks-put-the-new-ends-on-the-tick-grid", Implies(sub, on_grid), info=info)
+        sink.check("equally-spaced-ticks-put-the-new-ends-on-the-tick-grid", Implies(sub, on_grid), info=info)
 
 
 def max_of(xs, sink):
@@ -687,7 +691,7 @@ def c18_configs(tier):
             continue
         base.append(c)
     base += c15_configs(tier)
-    anchors_tz = ["2021-03-10T12:00:00", "2021-11-03T09:30:00", "2021-04-01T00:00:00", "2021-09-20T06:00:00"]
+    anchors_tz = ["2021-03-10T12:00:00", "2021-11-03T09:30:00", "2021-04-01T00:00:00", "2021-09-20T06:00:00", "2021-03-12T20:00:00"]
     for kind, fn in (("time-c16", c16_configs), ("time-c14", lambda t: nice_configs(t))):
         for c in fn("quick"):
             if c["m"] != 10 or c.get("anchor") != ANCHORS[0]:
@@ -703,12 +707,12 @@ def c18_configs(tier):
         base.append(dict(name="c18pair-week-range-dt%d" % dt, kind="time-c18pair", unit="week", dt=dt, span=5, weight=40, ylo=2021, yhi=2021, res="h", pair=True))
     for tag, upd in tz_models():
         for c in base:
-            if c["kind"] in ("time-c16", "time-c14") and tag == "const" and c["name"].endswith(("tzanchor1", "tzanchor2", "tzanchor3")):
+            if c["kind"] in ("time-c16", "time-c14") and tag == "const" and c["name"].endswith(("tzanchor1", "tzanchor2", "tzanchor3", "tzanchor4")):
                 continue
             if c["kind"] in ("time-c16", "time-c14") and tag != "const":
                 # each real transition with the anchor that precedes it
                 want = {"America_New_York#spring": "tzanchor0", "America_New_York#fall": "tzanchor1", "Australia_Lord_Howe#apr": "tzanchor2", "Pacific_Chatham#sep": "tzanchor3"}[tag]
-                if not c["name"].endswith(want):
+                if not (c["name"].endswith(want) or (tag == "America_New_York#spring" and c["name"].endswith("tzanchor4"))):
                     continue
             d = dict(c)
             d.update(upd)
